@@ -965,6 +965,12 @@ func (en *Engine) havocLvalue(st *State, sc *specCtx, m SpecExpr) {
 		t := sc.ptrElemType(l)
 		var facts []*Term
 		c := freshCell(t, l.R.name+".h", &facts)
+		// a symbolic array stays symbolic
+		if oc, _ := en.loadPath(st, en.regionCell(st, l.R), l.Path, l.R.typ); oc != nil {
+			if sa, ok := oc.(*SymArrCell); ok && !isAggType(sa.Elem) {
+				c = &SymArrCell{Arr: FreshVar(l.R.name+".h.arr", SArr), N: sa.N, Elem: sa.Elem}
+			}
+		}
 		st.mem[l.R] = en.storePath(st, en.regionCell(st, l.R), l.Path, l.R.typ, c)
 		for _, f := range facts {
 			st.assume(f)
